@@ -34,6 +34,9 @@ pub struct Shared {
 	pub tx_closed: Mutex<bool>,
 	/// points inside the transport operations
 	pub tx_points: bool,
+	/// `receive()` is not cancellation safe, like the WebSocket transport's: it takes the message off the connection,
+	/// then has one more await (point `rx:mid`) before it returns it; a `receive()` future dropped in between loses it
+	pub rx_split: bool,
 }
 
 pub struct MockTx(pub Arc<Shared>);
@@ -78,7 +81,11 @@ impl TransportReceiverT for MockRx {
 	async fn receive(&mut self) -> Result<ReceivedMessage, MockErr> {
 		loop {
 			let n = self.0.rx_notify.notified();
-			if let Some(item) = self.0.rxq.lock().unwrap().pop_front() {
+			let item = self.0.rxq.lock().unwrap().pop_front();
+			if let Some(item) = item {
+				if self.0.rx_split {
+					sched::point("rx:mid").await;
+				}
 				return item;
 			}
 			n.await;
@@ -224,11 +231,19 @@ pub struct CliScenarioCfg {
 	pub tx_points: bool,
 	pub buffer_cap: usize,
 	pub late_after: usize,
+	/// see `Shared::rx_split`
+	pub rx_split: bool,
+	/// enable the client's ping/inactivity machinery with this interval (virtual milliseconds)
+	pub ping_ms: Option<u64>,
+	/// this many sequential calls (answered at once, no scheduling points) are made before the front-end actors start,
+	/// so that the ids used by the scenario proper start at `warmup`
+	pub warmup: usize,
 }
 
 /// Build the client and spawn all actors. Must be called inside the runtime.
 pub fn setup(cfg: &CliScenarioCfg) -> CliState {
 	let shared = Arc::new(Shared {
+		rx_split: cfg.rx_split,
 		sent: Mutex::new(Vec::new()),
 		send_calls: Mutex::new(0),
 		fail_send_at: cfg.fail_send_at,
@@ -238,11 +253,21 @@ pub fn setup(cfg: &CliScenarioCfg) -> CliState {
 		tx_closed: Mutex::new(false),
 		tx_points: cfg.tx_points,
 	});
-	let client: Client = ClientBuilder::default()
+	let mut builder = ClientBuilder::default()
 		.request_timeout(Duration::from_secs(3600))
 		.max_buffer_capacity_per_subscription(cfg.buffer_cap)
-		.id_format(cfg.id_kind)
-		.build_with_tokio(MockTx(shared.clone()), MockRx(shared.clone()));
+		.id_format(cfg.id_kind);
+	if let Some(ms) = cfg.ping_ms {
+		// the read task's inactivity timer fires every `ms` (virtual) but never declares the connection inactive:
+		// it only makes that select branch win while other work is in flight
+		builder = builder.enable_ws_ping(
+			jsonrpsee_core::client::async_client::PingConfig::new()
+				.ping_interval(Duration::from_secs(36000))
+				.inactive_limit(Duration::from_millis(ms))
+				.max_failures(usize::MAX),
+		);
+	}
+	let client: Client = builder.build_with_tokio(MockTx(shared.clone()), MockRx(shared.clone()));
 	let client = Arc::new(client);
 	let n = cfg.ops.len();
 	let log = Arc::new(Mutex::new(OpLog {
@@ -255,13 +280,41 @@ pub fn setup(cfg: &CliScenarioCfg) -> CliState {
 		deliveries: vec![],
 	}));
 	let env_notify = Arc::new(Notify::new());
+	// warm-up: advance the id counter
+	let warm = Arc::new((Mutex::new(cfg.warmup == 0), Notify::new()));
+	if cfg.warmup > 0 {
+		let n = cfg.warmup;
+		let (client, shared2, warm2) = (client.clone(), shared.clone(), warm.clone());
+		tokio::spawn(async move {
+			for j in 0..n {
+				shared2.wait_sent(j).await;
+				let m = shared2.sent_msg(j).unwrap();
+				shared2.push_rx(Ok(ReceivedMessage::Text(answer_for(&m, j, &AnswerKind::Ok))));
+			}
+		});
+		tokio::spawn(async move {
+			for j in 0..n {
+				let _ = client.request::<Value, _>("warm", rpc_params![j as u64]).await;
+			}
+			*warm2.0.lock().unwrap() = true;
+			warm2.1.notify_waiters();
+		});
+	}
 	// front-end actors
 	for (i, op) in cfg.ops.iter().cloned().enumerate() {
 		let client = client.clone();
 		let log = log.clone();
 		let env_notify = env_notify.clone();
 		let late_after = cfg.late_after;
+		let warm = warm.clone();
 		tokio::spawn(async move {
+			loop {
+				let nfy = warm.1.notified();
+				if *warm.0.lock().unwrap() {
+					break;
+				}
+				nfy.await;
+			}
 			if matches!(op, FeOp::LateCall | FeOp::LateBatch(_)) {
 				loop {
 					let nfy = env_notify.notified();
